@@ -915,6 +915,13 @@ theorem C19_conc_goroutine_timestamps_monotone (hw : List UInt8) (c : Nat) (t0 :
     rw [ei, ej]
     exact tick_mono _ _ ri rj this
 
+/-- so the `mon=` field of the model's answer to a `sched` op whose wall clock never steps back is `ok` -/
+theorem C19_sched_monitors_ok (hw : List UInt8) (c : Nat) (t0 : Int × Nat) (acts : List Act)
+    (h0 : Representable t0.1 t0.2) (hok : WallOk t0 acts) :
+    monitorsOk t0 (concRun hw (concInit c t0) acts).wall (concRun hw (concInit c t0) acts).out = true := by
+  obtain ⟨h1, h2⟩ := C19_conc_goroutine_timestamps_monotone hw c t0 acts h0 hok
+  exact monFold_true _ _ _ [] (fun r hr => (h1 r hr).2) h2 (fun p hp => by cases hp)
+
 /-- non-vacuity: the schedule of the example below satisfies `WallOk`, and ACROSS goroutines the timestamps do
     decrease in increment order (goroutine 0 was overtaken) -/
 example : WallOk (1700000000, 0) [.now 0, .wall (1700000000, 100), .now 1, .inc 1, .inc 0] := by
